@@ -1065,10 +1065,7 @@ theorem field_file_chain (lib : AsdfLib) (hl : AsdfFaithful lib) (hops : List (L
         · right; simp [pyWeights_idem]
       · simpa [hk] using hx
 
-/-- **Chains of files for dense mode bases**, any length, any mixture of formats.  (Sparse bases go
-through the same `basisChain` in the driver and the harness; for them the single-hop theorem
-`basis_file_roundtrip_sparse` is what is proved — the FITS image path re-sparsifies, and carrying its
-shape invariant along a chain is not done.) -/
+/-- **Chains of files for dense mode bases**, any length, any mixture of formats.  (Sparse bases: `basis_file_chain_sparse`.) -/
 theorem basis_file_chain_dense (lib : AsdfLib) (hl : AsdfFaithful lib) (hops : List Hop)
     (b b' : ModeBasis) (a : Arr) (g : Grid) (ts : List Nat) (m : Nat)
     (htm : b.tm = .dense a) (hg : b.grid = some g) (h : g.Ok) (hnd : 0 < g.coords.ndim)
@@ -1110,6 +1107,116 @@ theorem basis_file_chain_dense (lib : AsdfLib) (hl : AsdfFaithful lib) (hops : L
         by_cases hk : k = .asdf
         · simp only [hk, if_true]; right; simp [pyWeights_idem]
         · simp only [hk, if_false]; right; trivial
+
+/-- One hop for a sparse basis, with what the next hop needs: the basis read is again a CSC matrix
+of the same shape with the same dense values (`todense()`), on the grid written (`pyWeights` form
+after an asdf file). -/
+theorem basis_file_hop_sparse (lib : AsdfLib) (hl : AsdfFaithful lib) (name : List Char)
+    (fmt : Option String) (c : Csc) (g : Grid) (m : Nat)
+    (h : g.Ok) (hnd : 0 < g.coords.ndim) (hshape : c.shape = [g.coords.size, m]) :
+    ∀ st, writeBasisFile lib name fmt ⟨.sparse c, some g⟩ = .ok st →
+      ∃ k c', formatOf name fmt = .ok k ∧
+        readBasisFile name fmt st = .ok ⟨.sparse c', if k = .asdf then some g.pyWeights else some g⟩ ∧
+        c'.shape = [g.coords.size, m] ∧ cscToDense c' = cscToDense c := by
+  unfold writeBasisFile readBasisFile formatOf
+  have ht : (⟨.sparse c, some g⟩ : ModeBasis).toDict = .ok (.dict [(.grid, g.toDict), (.tm, c.toDict),
+      (.isSparse, .bool true)]) := rfl
+  cases hr : resolveName name fmt with
+  | error e => simp [bind, Except.bind]
+  | ok s =>
+    cases hd : dispatch s with
+    | error e => simp [bind, Except.bind, hd, ht]
+    | ok k =>
+      cases k with
+      | asdf =>
+        have ha := asdf_basis_roundtrip lib hl ⟨.sparse c, some g⟩ g rfl h
+        cases hw : writeBasisAsdf lib ⟨.sparse c, some g⟩ with
+        | error e => simp [bind, Except.bind, hd, ht, Except.map, hw]
+        | ok file =>
+          rw [hw] at ha
+          simp only [Except.bind] at ha
+          simp [bind, Except.bind, hd, ht, Except.map, hw, ha]
+          exact hshape
+      | pickle =>
+        simp [bind, Except.bind, hd, ht, Except.map]
+        exact hshape
+      | fits =>
+        cases hw : writeBasisFits ⟨.sparse c, some g⟩ with
+        | error e => simp [bind, Except.bind, hd, ht, Except.map, hw]
+        | ok file =>
+          rcases fits_basis_sparse_read ⟨.sparse c, some g⟩ c g m rfl rfl h hnd hshape file hw with h1 | h1
+          · simp [bind, Except.bind, hd, ht, Except.map, hw, h1]
+            exact hshape
+          · obtain ⟨hs, hlen⟩ := cscToDense_shape c _ _ hshape
+            have heta : cscToDense c = ⟨(cscToDense c).dtype, [g.coords.size, m], (cscToDense c).data⟩ := by
+              rw [← hs]
+            simp [bind, Except.bind, hd, ht, Except.map, hw, h1]
+            refine ⟨?_, ?_⟩
+            · rw [heta]; rfl
+            · rw [heta, cscToDense_denseToCsc _ _ _ _ hlen]
+
+/-- **Chains of files for sparse mode bases**, any length, any file names, `fmt` arguments and
+mixture of formats (asdf / fits / fits.gz / pickle): whenever every hop can be written, the basis
+read at the end is **sparse** (a CSC matrix of the same shape), has the **same matrix**
+(`todense()` equal: the FITS image path re-sparsifies, which normalises explicit zeros, duplicates
+and index order and nothing else) and sits on the **same grid** (NumPy-scalar weights possibly as
+the Python number once an asdf file was among the hops).  Induction over the hop list from the
+single hop `basis_file_hop_sparse`, with the invariant "CSC of shape `[grid.size, m]` whose dense
+form is the original's". -/
+theorem basis_file_chain_sparse (lib : AsdfLib) (hl : AsdfFaithful lib) (hops : List Hop)
+    (b b' : ModeBasis) (c : Csc) (g : Grid) (m : Nat)
+    (htm : b.tm = .sparse c) (hg : b.grid = some g) (h : g.Ok) (hnd : 0 < g.coords.ndim)
+    (hshape : c.shape = [g.coords.size, m])
+    (hc : basisChain lib hops b = .ok b') :
+    b'.isSparse = true ∧ b'.denseArr = b.denseArr ∧
+      (∃ c', b'.tm = .sparse c' ∧ c'.shape = c.shape) ∧
+      (b'.grid = some g ∨ b'.grid = some g.pyWeights) := by
+  suffices H : ∀ (hops : List Hop) (cx : Csc) (gx : Grid),
+      cx.shape = [g.coords.size, m] → cscToDense cx = cscToDense c → (gx = g ∨ gx = g.pyWeights) →
+      basisChain lib hops ⟨.sparse cx, some gx⟩ = .ok b' →
+      ∃ c', b' = ⟨.sparse c', b'.grid⟩ ∧ c'.shape = [g.coords.size, m] ∧ cscToDense c' = cscToDense c ∧
+        (b'.grid = some g ∨ b'.grid = some g.pyWeights) by
+    obtain ⟨tm, og⟩ := b
+    simp only at htm hg
+    subst htm hg
+    obtain ⟨c', hb, hs, hd, hgr⟩ := H hops c g hshape rfl (Or.inl rfl) hc
+    refine ⟨by rw [hb]; rfl, ?_, ⟨c', by rw [hb], by rw [hs, hshape]⟩, hgr⟩
+    rw [hb]
+    simpa [ModeBasis.denseArr] using hd
+  intro hops
+  induction hops with
+  | nil =>
+    intro cx gx hs hd hgx hch
+    simp only [basisChain] at hch
+    injection hch with hch
+    subst hch
+    exact ⟨cx, rfl, hs, hd, by rcases hgx with rfl | rfl <;> simp⟩
+  | cons hop r ih =>
+    intro cx gx hs hd hgx hch
+    obtain ⟨n, fm⟩ := hop
+    have hgxok : gx.Ok ∧ 0 < gx.coords.ndim ∧ gx.coords.size = g.coords.size ∧ gx.pyWeights = g.pyWeights := by
+      rcases hgx with rfl | rfl
+      · exact ⟨h, hnd, rfl, rfl⟩
+      · exact ⟨h, hnd, rfl, pyWeights_idem g⟩
+    obtain ⟨hok, hnd', hsz, hpw⟩ := hgxok
+    simp only [basisChain, bind, Except.bind] at hch
+    cases hw : writeBasisFile lib n fm ⟨.sparse cx, some gx⟩ with
+    | error e => rw [hw] at hch; cases hch
+    | ok st =>
+      rw [hw] at hch
+      obtain ⟨k, c', _, hread, hs', hd'⟩ :=
+        basis_file_hop_sparse lib hl n fm cx gx m hok hnd' (by rw [hsz]; exact hs) st hw
+      simp only [hread] at hch
+      by_cases hk : k = .asdf
+      · simp only [hk, if_true] at hch
+        exact ih c' gx.pyWeights (by rw [← hsz]; exact hs') (hd'.trans hd) (Or.inr hpw) hch
+      · simp only [hk, if_false] at hch
+        exact ih c' gx (by rw [← hsz]; exact hs') (hd'.trans hd) hgx hch
+
+example : (basisChain AsdfLib.observed [("a.fits".toList, none), ("b.pkl".toList, none), ("c.dat".toList, some "asdf"),
+      ("d.fits.gz".toList, none)]
+    ⟨.sparse (denseToCsc ⟨"f8", [2, 3], [1, 0, 3, 4, 5, 0]⟩), some ⟨.cartesian, .regular [.float 1] [2] [.float 0], .null⟩⟩).map
+      (fun b => (b.isSparse, b.denseArr.data)) = .ok (true, [1, 0, 3, 4, 5, 0]) := by decide +kernel
 
 /-! ## Old — the unrepaired read/write paths and their counterexamples
 
